@@ -53,7 +53,7 @@ def ctor_variations(rng, cfg):
 
 
 def community_session(rng, version, flavour=None, **kw):
-    cfg = {"version": version, "community": rng.choice(["public", "c0", "private-community-string", "", "public", "L" * rng.choice([127, 128, 200, 256])]), "timeout_ns": gen.timeout_ns(rng)}
+    cfg = {"version": version, "community": rng.choice(["public", "c0", "private-community-string", "", "public", "L" * rng.choice([127, 128, 200, 256]), "public", "c0", "\u043f\u0443\u0431\u043b\u0438\u043a\u0430", "caf\u00e9 with space", "nul\x00inside"]), "timeout_ns": gen.timeout_ns(rng)}
     cfg.update(kw)
     return ctor_variations(rng, cfg)
 
